@@ -52,7 +52,8 @@ def _run(name, prop, jobs, bounds, expected=(), extra_assume=()):
 
 def _job(h, label, budget, **params):
     thorough = budget > 60
-    lim = {"budget_s": budget, "max_paths": 40000 if thorough else 4000}
+    # the path budget is the real bound; the clock is only a safety net and must not fire on a slow / loaded machine
+    lim = {"budget_s": budget if thorough else 8 * budget, "max_paths": 40000 if thorough else 4000}
     if thorough:
         lim["xcheck_every"] = 40      # two-solver diff on every 40th property query (z3 4.8.12 and cvc5 binaries)
     return {"harness": K + h, "label": label, "params": params, "limits": lim}
